@@ -145,7 +145,9 @@ struct weighted_with_variance
             non_zero_calls += i->non_zero_calls();
             finite_calls += i->finite_calls();
 
-            if (i->non_zero_calls() != 0)
+            // a result without any finite non-zero evaluation carries no information (its sums
+            // are zero), no matter whether the evaluations were zero or non-finite
+            if (i->finite_calls() != 0)
             {
                 T const tmp = T(1.0) / i->variance();
                 variance += tmp;
@@ -153,7 +155,7 @@ struct weighted_with_variance
             }
         }
 
-        if (non_zero_calls != 0)
+        if (finite_calls != 0)
         {
             variance = T(1.0) / variance;
             estimate *= variance;
